@@ -126,6 +126,38 @@ def hoist_closure_patterns(src):
     return ''.join(out), c
 
 
+def rewrite_format_concat(text):
+    """T7: format!("{}{}", a, b) -> crate::vx_concat2(&(a), &(b))  (only pure `{}` holes; Display of str/String)"""
+    masked = mask(text)
+    out, last, c = [], 0, 0
+    for m in re.finditer(r'\bformat!\(', masked):
+        if m.start() < last:
+            continue
+        op = m.end() - 1
+        cl = match_close(masked, op)
+        inner = text[op + 1:cl]
+        minner = masked[op + 1:cl]
+        # split on top-level commas
+        parts, depth, st = [], 0, 0
+        for k, ch in enumerate(minner):
+            if ch in '([{':
+                depth += 1
+            elif ch in ')]}':
+                depth -= 1
+            elif ch == ',' and depth == 0:
+                parts.append(inner[st:k])
+                st = k + 1
+        parts.append(inner[st:])
+        parts = [p_ for p_ in parts if p_.strip()]
+        if len(parts) == 3 and parts[0].strip() == '"{}{}"':
+            out.append(text[last:m.start()])
+            out.append('crate::vx_concat2(&(%s), &(%s))' % (parts[1].strip(), parts[2].strip()))
+            last = cl + 1
+            c += 1
+    out.append(text[last:])
+    return ''.join(out), c
+
+
 def module_span(text, modpath):
     """(lo, hi) of the body of nested module a::b::c in text"""
     masked = mask(text)
@@ -390,6 +422,14 @@ def inline_crate(repo, arg, subs, unit):
                 from splice import LostAnchor
                 raise LostAnchor('inline rewrite_re %s: %r matched %d times, expected %s' % (rule, frm, c, cnt))
             t = dict(rule=rule, frm_regex=frm, to=to, count=c, item=rec['item'])
+            rec['transformations'].append(t)
+            unit.transforms.append(t)
+        elif w[0] == 'format_concat':
+            text, c = rewrite_format_concat(text)
+            if c == 0:
+                from splice import LostAnchor
+                raise LostAnchor('format_concat: no format!("{}{}", a, b) found')
+            t = dict(rule='T7', what='format!("{}{}", a, b) -> vx_concat2(&a, &b) (trusted: result is the concatenation)', count=c, item=rec['item'])
             rec['transformations'].append(t)
             unit.transforms.append(t)
         elif w[0] == 'external':
